@@ -66,7 +66,16 @@ def as_gen(I, it):
         return it
     if isinstance(it, symseq.SymSeq):
         return SymGen(it.n, it.at)
+    if hasattr(it, "as_symgen"):
+        return it.as_symgen(I)
     return None
+
+
+def enumerate_gen(I, it):
+    g = as_gen(I, it)
+    if g is None:
+        return None
+    return SymGen(g.n, lambda j: STuple([SNum(j, "int"), g.elem(j)]))
 
 
 def occurs(t, v):
@@ -93,6 +102,8 @@ def subst_val(v, i, by):
         return SBool(z3.substitute(v.t, (i, by))) if z3.is_expr(v.t) else v
     if isinstance(v, STuple):
         return STuple([subst_val(x, i, by) for x in v.items])
+    if isinstance(v, SStr) and v.py is None and not v.opaque and not hasattr(v, "parts"):
+        return SStr(name=z3.substitute(v._name, (i, by)))
     return v
 
 
@@ -234,7 +245,7 @@ def for_hook(I, st, it, frame):
             continue
         if isinstance(v, symseq.SymSeq):
             continue
-        if isinstance(v, (SNum, SBool, STuple)):
+        if isinstance(v, (SNum, SBool, STuple)) or (isinstance(v, SStr) and v.py is None and not v.opaque and not hasattr(v, "parts")):
             frame.vars[name] = subst_val(v, i, last)
         elif mentions(v, i):
             raise OutOfSubset("loop-carried object %s depends on the element (line %d)" % (name, st.lineno))
